@@ -261,3 +261,36 @@ Definition ex_sys_trace (cf : ex_cfg) (y : ex_sys) (acts : list ex_act) : list e
 
 (* every hypothesis on *)
 Definition ex_cfg_guarded (maxr : Z) : ex_cfg := Build_ex_cfg maxr true true true.
+
+(* ------------------------------------------------------------------ liveness vocabulary *)
+(* tokens whose response is irrecoverably lost by this action: the network loses a
+   Non-confirmable response (it is sent once), or the server gives up retransmitting a
+   Confirmable response (no ACK for any of its max_retransmit + 1 transmissions) *)
+Definition ex_lost_step (cf : ex_cfg) (y : ex_sys) (a : ex_act) : list Z :=
+  match a with
+  | ExADropC i =>
+      match nth_error (ex_y_s2c y) i with
+      | Some (ExNonR _ k) => [k]
+      | _ => []
+      end
+  | ExASrvTimer j =>
+      match nth_error (ex_s_con (ex_y_s y)) j with
+      | Some r => if ex_r_cnt r <? ex_cf_maxr cf then [] else [ex_r_tok r]
+      | None => []
+      end
+  | _ => []
+  end.
+
+Fixpoint ex_lost_run (cf : ex_cfg) (y : ex_sys) (acts : list ex_act) : list Z :=
+  match acts with
+  | [] => []
+  | a :: tl => ex_lost_step cf y a ++ ex_lost_run cf (fst (ex_sys_step cf y a)) tl
+  end.
+
+(* the handler or the nack handler was called for token k *)
+Definition ex_answered (k : Z) (t : list ex_obs) : Prop :=
+  exists o out, In o t /\ In out (snd o) /\ ex_out_ends k out = true.
+
+(* nothing is in flight, the server holds no work, the client's send queue is empty *)
+Definition ex_at_rest (y : ex_sys) : bool :=
+  ex_quiet y && match ex_c_q (ex_y_c y) with None => true | Some _ => false end.
